@@ -257,6 +257,13 @@ func Watch(typ string)                     {}
 func Events() []Event                      { return nil }
 func AccessCount() uint64                  { return 0 }
 
+// Appended reports whether the journal has been appended to since the world was created (the logical
+// disk is no longer the assumed pre-state).
+func Appended() bool { return false }
+
+// Forced returns c; symbolically it returns the constant true when the path condition entails c.
+func Forced(c bool) bool { return c }
+
 // ---- disk
 
 type Disk struct {
